@@ -111,7 +111,7 @@ func Buffer(frame, spare []byte) (buf []byte, p []byte) {
 	buf = make([]byte, n+m)
 	copy(buf, frame)
 	copy(buf[n:], spare)
-	return buf, buf[:n : n+m]
+	return buf, buf[: n : n+m]
 }
 
 // ---------------------------------------------------------------------------
@@ -1002,7 +1002,6 @@ func Corpus(r *lib.Run) {
 		}
 	}
 }
-
 
 // FrameAPI: the exported surface of packet.Frame by reflection (methods of *Frame, which include the value-receiver
 // ones, with their signatures; exported fields with their types), sorted, as one canonical line.  The model side
